@@ -1,6 +1,7 @@
 /* C22 contracts, part 2: the event part of AbstractIntegratorRep::takeOneStep (everything after the step-acceptance loop),
    cut as a region and wrapped into takeOneStep_events(t0,t1,tReport). This IS the event half of the contract that C19 assumes
    for takeOneStep. Included after the accessors cut from IntegratorRep.h (shared with C19). */
+#include "fec_abs.h"
 #define NN(x)  (!__CPROVER_isnand(x))
 #define FIN(x) (!__CPROVER_isnand(x) && !__CPROVER_isinfd(x))
 #define ADV(s) ((s)->advancedState.t)
@@ -40,20 +41,21 @@ __CPROVER_ensures(__CPROVER_return_value >= 0x1p-50 && FIN(__CPROVER_return_valu
 Real vf_bias_half(Real b)   __CPROVER_requires(b > 0 && FIN(b)) __CPROVER_assigns() __CPROVER_ensures(__CPROVER_return_value > 0 && FIN(__CPROVER_return_value)) ;
 Real vf_bias_double(Real b) __CPROVER_requires(b > 0 && FIN(b)) __CPROVER_assigns() __CPROVER_ensures(__CPROVER_return_value > 0 && FIN(__CPROVER_return_value)) ;
 
-/* findEventCandidates seen from takeOneStep: the Array_ payload is abstracted to the candidate COUNT. Clauses = those proved
-   for the real findEventCandidates in unit fec.* (bounded scan) on top of estimateRootTime's contract:
-   the list can only be narrowed; estimates lie in the bracket, strictly inside when the bracket is wider than the
-   localisation requirement; narrowestWindow >= minWindow; no candidate -> Infinity. */
+/* findEventCandidates seen from takeOneStep: the Array_ payload is abstracted to the candidate COUNT (n = length of the
+   delivered list, viable_n = length of the viable list handed in, -1 = none). The requires and the clauses (a)-(d) are the
+   macros of fec_abs.h: the SAME text is proved as postconditions findEventCandidates.abs.a-d of the real findEventCandidates
+   loop over its Array_/Vector payload in units fec.all / fec.narrow (specs/C22/fec_contracts.h), on top of estimateRootTime's
+   contract: the list can only be narrowed; no candidate -> Infinity; the earliest estimate lies in the bracket, strictly inside
+   when the bracket is wider than the localisation requirement; narrowestWindow >= minWindow. */
 void findEventCandidates_v(struct IntegratorRep* self, Real tLow, Real tHigh, Real bias, Real minWindow, int viable_n,
                            int* n, Real* earliestTimeEst, Real* narrowestWindow)
-__CPROVER_requires(FIN(tLow) && FIN(tHigh) && tLow < tHigh && -1e300 <= tLow && tHigh <= 1e300)      /* estimateRootTime's assert(tLow < tHigh) */
-__CPROVER_requires(bias > 0 && FIN(bias) && minWindow > 0 && FIN(minWindow))                         /* assert(bias > 0), assert(minWindow > 0) */
+__CPROVER_requires(FEC_ABS_REQUIRES(tLow, tHigh, bias, minWindow))      /* estimateRootTime's assert(tLow < tHigh), assert(bias > 0), assert(minWindow > 0) */
 __CPROVER_requires(viable_n == -1 || viable_n > 0)
 __CPROVER_assigns(*n, *earliestTimeEst, *narrowestWindow, ghost_narrowest, ghost_prev_empty, ghost_prev_thigh)
-__CPROVER_ensures(*n >= 0 && (viable_n >= 0 ==> *n <= viable_n))
-__CPROVER_ensures(*n == 0 ==> (*earliestTimeEst == Infinity && *narrowestWindow == Infinity))
-__CPROVER_ensures(*n > 0 ==> (tLow <= *earliestTimeEst && *earliestTimeEst <= tHigh && *narrowestWindow >= minWindow))
-__CPROVER_ensures((*n > 0 && tHigh - tLow > *narrowestWindow && MINWINDOW_VISIBLE(tLow, tHigh, minWindow)) ==> INSIDE(tLow, *earliestTimeEst, tHigh))
+__CPROVER_ensures(FEC_ABS_NARROWED(*n, viable_n))
+__CPROVER_ensures(FEC_ABS_EMPTY(*n, *earliestTimeEst, *narrowestWindow))
+__CPROVER_ensures(FEC_ABS_BRACKET(*n, tLow, tHigh, minWindow, *earliestTimeEst, *narrowestWindow))
+__CPROVER_ensures(FEC_ABS_STRICT(*n, tLow, tHigh, minWindow, *earliestTimeEst, *narrowestWindow))
 __CPROVER_ensures(ghost_narrowest == *narrowestWindow)
 /* split completeness (per-trigger sign lemma proved in unit event.split_lemma: a monitored transition over (a,c) that is not
    seen over (a,b) is seen over (b,c)): if the lower part (tLow,tMid] of a bracket with viable candidates had none, the upper
